@@ -448,6 +448,25 @@ type methodConfig struct {
 	httpRule                  *routeTarget // First HTTP rule, if any.
 }
 
+// inputDescriptor returns the descriptor of the messages that are actually
+// instantiated for requests. A custom type resolver may supply a type whose
+// descriptor is distinct from (though equivalent to) the one referenced by the
+// method descriptor, and fields of one must not be used with messages of the other.
+func (c *methodConfig) inputDescriptor() protoreflect.MessageDescriptor {
+	if c.requestType != nil {
+		return c.requestType.Descriptor()
+	}
+	return c.descriptor.Input()
+}
+
+// outputDescriptor is like inputDescriptor, but for response messages.
+func (c *methodConfig) outputDescriptor() protoreflect.MessageDescriptor {
+	if c.responseType != nil {
+		return c.responseType.Descriptor()
+	}
+	return c.descriptor.Output()
+}
+
 func descKind(desc protoreflect.Descriptor) string {
 	switch desc := desc.(type) {
 	case protoreflect.FileDescriptor:
